@@ -3,6 +3,7 @@ CONSTANTS
   MaxConns = 3
   AcceptMode = "one"
   MaxAccepts = 16
+  AbortEndsLoop = FALSE
 VIEW view
 ACTION_CONSTRAINT Emit
 INVARIANTS NoStrandedConn AnsweredWereMade
